@@ -28,12 +28,15 @@ package c07
 import (
 	"bufio"
 	"bytes"
+	"context"
 	"crypto/tls"
+	"crypto/x509"
 	"errors"
 	"fmt"
 	"io"
 	"net"
 	"net/http"
+	"net/http/httptest"
 	"os"
 	"runtime"
 	"sort"
@@ -45,7 +48,9 @@ import (
 
 	martian "github.com/google/martian/v3"
 	mlog "github.com/google/martian/v3/log"
+	mh2 "github.com/google/martian/v3/h2"
 	"github.com/google/martian/v3/mitm"
+	"golang.org/x/net/http2"
 
 	"verif/harness/internal/core"
 )
@@ -77,7 +82,7 @@ func (P) Nontrivial(ops []string, impl []string) bool {
 	for i, op := range ops {
 		if strings.HasPrefix(op, "scn ") {
 			for _, pt := range []string{"reqmod", "rt", "resmod", "write", "gate", "late", "head", "rbody", "wbody",
-				"tunnel", "cdial", "mpeek", "hjq", "hjs"} {
+				"tunnel", "cdial", "mpeek", "hjq", "hjs", "h2s"} {
 				if strings.Contains(op, pt) {
 					return true
 				}
@@ -670,6 +675,7 @@ var (
 	mitmOnce sync.Once
 	mitmCfg  *mitm.Config
 	mitmErr  error
+	h2Origin *httptest.Server // one HTTP/2 TLS origin per process, reached through MITM'd tunnels to 127.0.0.1
 )
 
 // theMitm: one authority per process (RSA key generation is slow); the configuration is immutable.
@@ -681,6 +687,18 @@ func theMitm() (*mitm.Config, error) {
 			return
 		}
 		mitmCfg, mitmErr = mitm.NewConfig(ca, priv)
+		if mitmErr != nil {
+			return
+		}
+		h2Origin = httptest.NewUnstartedServer(http.HandlerFunc(func(rw http.ResponseWriter, req *http.Request) {
+			rw.Write([]byte("h2 origin"))
+		}))
+		h2Origin.EnableHTTP2 = true
+		h2Origin.StartTLS()
+		pool := x509.NewCertPool()
+		pool.AddCert(h2Origin.Certificate())
+		// HTTP/2 is offered only inside tunnels to the loopback origin; the other MITM'd tunnels stay HTTP/1.1
+		mitmCfg.SetH2Config(&mh2.Config{RootCAs: pool, AllowedHostsFilter: func(h string) bool { return strings.HasPrefix(h, "127.0.0.1") }})
 	})
 	return mitmCfg, mitmErr
 }
@@ -913,6 +931,70 @@ func (cl *client) mitmConnect(host string, handshake bool) error {
 	}
 	tc.SetDeadline(time.Time{})
 	cl.c = tc
+	return nil
+}
+
+// h2Connect: CONNECT to the process-wide HTTP/2 origin through the MITM, TLS with ALPN h2, one complete
+// request/response through the relayed session (event h2:k once that has worked). The connection is then
+// owned by the HTTP/2 client; watch() reports its end as eof:k.
+func (cl *client) h2Connect() error {
+	host := h2Origin.Listener.Addr().String()
+	b := cl.connectBytes(host)
+	cl.w.log.add("snd:%s:c", cl.key())
+	cl.seq++
+	cl.c.SetDeadline(time.Now().Add(stepDeadline))
+	if _, err := cl.c.Write(b); err != nil {
+		return err
+	}
+	res, err := http.ReadResponse(bufio.NewReader(cl.c), &http.Request{Method: "CONNECT"})
+	if err != nil {
+		return err
+	}
+	if res.StatusCode != 200 {
+		return fmt.Errorf("CONNECT answered %d", res.StatusCode)
+	}
+	cl.w.log.add("cresp:%s", cl.key())
+	atomic.AddInt32(&cl.cresps, 1)
+	cl.w.log.add("tls:%s", cl.key())
+	tc := tls.Client(cl.c, &tls.Config{InsecureSkipVerify: true, NextProtos: []string{"h2"}})
+	if err := tc.Handshake(); err != nil {
+		return err
+	}
+	if tc.ConnectionState().NegotiatedProtocol != "h2" {
+		return fmt.Errorf("negotiated %q, not h2", tc.ConnectionState().NegotiatedProtocol)
+	}
+	tc.SetDeadline(time.Time{})
+	cl.c = tc
+	cc, err := (&http2.Transport{}).NewClientConn(tc)
+	if err != nil {
+		return err
+	}
+	ctx, cancel := context.WithTimeout(context.Background(), stepDeadline)
+	defer cancel()
+	rq, _ := http.NewRequestWithContext(ctx, "GET", "https://"+host+"/", nil)
+	rs, err := cc.RoundTrip(rq)
+	if err != nil {
+		return err
+	}
+	body, _ := io.ReadAll(rs.Body)
+	rs.Body.Close()
+	if string(body) != "h2 origin" {
+		return fmt.Errorf("unexpected body %q through the HTTP/2 session", body)
+	}
+	cl.w.log.add("h2:%s", cl.key())
+	go func() { // the session's end, as the client sees it
+		defer close(cl.eof)
+		for i := 0; i < 3000; i++ {
+			pctx, pc := context.WithTimeout(context.Background(), 2*time.Second)
+			err := cc.Ping(pctx)
+			pc()
+			if err != nil {
+				break
+			}
+			time.Sleep(10 * time.Millisecond)
+		}
+		cl.w.log.add("eof:%s", cl.key())
+	}()
 	return nil
 }
 
@@ -1315,6 +1397,10 @@ func parseScn(op string) (*scenario, bool) {
 			if !sc.mitm {
 				return nil, false
 			}
+		case "h2s": // an HTTP/2 session relayed inside a MITM'd tunnel
+			if !sc.mitm || sc.x[i] != 0 {
+				return nil, false
+			}
 		case "hjq", "hjs": // a modifier that hijacks the connection
 		case "gate", "late":
 			if i != n-1 { // Serve is stuck behind a gate conn; after shutdown it accepts at most one more
@@ -1416,6 +1502,13 @@ func runScenario(sc *scenario) (trace []string, v verdict, counted map[int]bool)
 				return false
 			}
 		}
+		if sc.pts[k] == "h2s" {
+			if err := cl.h2Connect(); err != nil {
+				v.set("c07:no-progress:h2s", "connection %d: no HTTP/2 session through the MITM: %v", k, err)
+				return false
+			}
+			return true // the HTTP/2 client owns the connection
+		}
 		go cl.reader()
 		return true
 	}
@@ -1476,6 +1569,7 @@ func runScenario(sc *scenario) (trace []string, v verdict, counted map[int]bool)
 				v.set("c07:no-progress:head", "connection %d: handler did not read the partial head", k)
 				return w.log.snapshot(), v, counted
 			}
+		case "h2s": // the HTTP/2 session is up (connect)
 		case "mpeek": // MITM: the 200 of the CONNECT arrives; the client stays silent
 			if err := cl.sendConnect(fmt.Sprintf("m%d.c07.test:443", k)); err != nil {
 				v.set("c07:harness", "send: %v", err)
@@ -1591,6 +1685,15 @@ func runScenario(sc *scenario) (trace []string, v verdict, counted map[int]bool)
 			}
 			if !waitCh(w.byIdx[k].closed, stepDeadline) {
 				v.set("c07:conn-not-closed", "connection %d (%s) was not closed within %v of its tunnel's peer leaving", k, sc.pts[k], stepDeadline)
+			}
+		case "h2s":
+			// the session was handed the closing channel: it ends by itself, no peer has to do anything
+			if !waitCh(w.byIdx[k].closed, stepDeadline) {
+				w.log.add("h2alive:%d", k) // not in the model's alphabet: the model says the session stops
+				clients[k].goneAway("tcl")
+				if !waitCh(w.byIdx[k].closed, stepDeadline) {
+					v.set("c07:conn-not-closed", "connection %d (HTTP/2 session) was not closed within %v of its client leaving", k, stepDeadline)
+				}
 			}
 		case "cdial", "creqmod", "cresmod":
 			w.log.add("open:%d", k)
@@ -1784,6 +1887,8 @@ func judge(trace []string) (v verdict, early bool) {
 			}
 		case "cresp":
 			c.cresp++
+		case "h2":
+			c.tls = true
 		case "hj":
 			c.hj++
 		case "cx":
@@ -2273,7 +2378,7 @@ func realGrid(emit func(ops []string), full bool) {
 // extended point sets of round 3
 var (
 	blindPoints = []string{"idle", "head", "reqmod", "rt", "resmod", "write", "tunnel", "cdial", "creqmod", "cresmod", "hjq", "hjs"}
-	mitmPoints  = []string{"idle", "head", "reqmod", "rt", "resmod", "write", "mpeek", "hjq", "hjs"}
+	mitmPoints  = []string{"idle", "head", "reqmod", "rt", "resmod", "write", "mpeek", "hjq", "hjs", "h2s"}
 )
 
 func extOp(pts []string, x, q, s, o []int, body int, mitm bool, ncl int) string {
@@ -2303,7 +2408,7 @@ func randExt(r *core.Rand) string {
 		} else {
 			pts[i] = pool[r.Intn(len(pool))]
 		}
-		if r.Chance(1, 3) {
+		if r.Chance(1, 3) && pts[i] != "h2s" {
 			x[i] = r.Range(1, 2)
 		}
 		if r.Chance(1, 5) {
@@ -2360,6 +2465,9 @@ func extGrid(emit func(ops []string), full bool) {
 		one("hjq", x, 0, 0, false, 1)
 		one("hjs", x, 0, 0, false, 1)
 		for _, p := range mitmPoints {
+			if p == "h2s" && x > 0 {
+				continue
+			}
 			one(p, x, 0, 0, true, 1)
 		}
 	}
